@@ -5,26 +5,27 @@ import SaphyrVerif.Lemmas.C15Seen
 
 Model: `Model/Tls.lean` (the two thread-locals as explicit state; a call = a program `Prog` of scopes,
 guards, wrapper visitors, probes, a failure point and nested calls; `runCall p t` = the call as a function
-of its arguments `p` and the thread-locals `t` it is entered with).
+of its arguments `p` and the thread-locals `t` it is entered with). The model follows the code AFTER the
+repairs b68ea91 (`with_document_scope` saves / restores the enclosing call's anchor state instead of
+resetting it) and 4aaf328 (`FallbackScopeGuard`: the fallback location is cleared for the scope and restored).
 
 Hypotheses used below, both facts about the code (and exercised by the differential run on every script):
-* `isEntry p` — a top-level call touches the thread-locals only inside `with_document_scope`, one scope per
-  document (`lib.rs`, `de/with_deserializer.rs`: all 12 call sites read);
-* `tight false p` — a key is only delivered by a map access, and a *leaked* map access (visitor calls
-  `mem::forget`) sits under the container guard of `deserialize_map` (`de.rs`: the `MA` value is built only
-  there, after the guard). Guards that are NOT leaked need no hypothesis: RAII is the semantics of `exec`.
+* `isEntry p` (`TopCall`) — a top-level call touches the thread-locals only inside `with_document_scope`,
+  one scope per document (`lib.rs`, `de/with_deserializer.rs`: all 12 call sites read);
+* `tight false p` (only for `fallback_restored`, which is about SUB-deserializations) — a key is only
+  delivered by a map access, and a *leaked* map access (visitor calls `mem::forget`) sits under the container
+  guard of `deserialize_map` (`de.rs`: the `MA` value is built only there, after the guard). Guards that are
+  NOT leaked need no hypothesis: RAII is the semantics of `exec`.
 
-Results:
-* (T, full over the model) `toplevel_call_history_independent`, `toplevel_call_state_clean`,
-  `call_ignores_entry_anchors`, `fallback_restored`, `fallback_restored_in_map_access`.
-* (T, partial) `nested_call_independent_partial` — a nested call returns the fresh result PROVIDED every
-  place where it reads the fallback cell is under one of its own guards; the full statement
-  `nested_call_independent_Full` is FALSE: (F) `nested_call_inherits_outer_fallback` (Props/C15_Findings.lean).
-* (T, partial) `nested_call_only_resets_anchors` — all a nested call does to the enclosing call is to reset
-  the anchor state; the full statement `nested_call_transparent_Full` is FALSE:
-  (F) `nested_call_clobbers_outer_anchors`, (F) `nested_call_breaks_recursive_anchor` (Props/C15_Findings.lean).
-* (T) `seen_membership_only`, `seen_order_irrelevant` — over `Model/De.lean`.
-* `no_other_state` is a code-reading fact (see the end of this file), tied to the code by the oracle.
+Results (all FULL over the model: every program, every entry state, every history):
+* `toplevel_call_state_clean`, `history_leaves_initial_state`, `toplevel_call_history_independent`,
+  `call_is_function_of_arguments`, `fallback_restored`, `fallback_restored_in_map_access`;
+* `nested_call_independent` — a call nested anywhere inside another call returns the fresh result;
+* `nested_call_is_noop`, `nested_call_transparent` — for the enclosing call a nested call is a no-op
+  (thread-locals, outcome, sharing); all it leaves is the record of its own (fresh) result;
+* `seen_membership_only`, `seen_order_irrelevant` — over `Model/De.lean`;
+* `no_other_state` is a code-reading fact (see the end of this file), tied to the code by the oracle;
+* the three former findings are regression theorems in `Props/C15_Findings.lean`.
 -/
 namespace SaphyrVerif.Tls
 open SaphyrVerif.De
@@ -32,15 +33,14 @@ open SaphyrVerif.De
 /-! ## Top-level calls -/
 
 /-- what the code guarantees about a top-level call (see the module comment) -/
-abbrev TopCall (p : Prog) : Prop := isEntry p = true ∧ tight false p = true
+abbrev TopCall (p : Prog) : Prop := isEntry p = true
 
 /-- C15, clause "no anchor table, error-location fallback … survives a call": after ANY completed
 top-level call — succeeded, failed at any point, or unwound by a panicking visitor (all three are
-programs `p`: an `err`/`serr`/`panic` at any position) — both thread-locals are as the call found them;
-from a clean thread that is the initial state. -/
-theorem toplevel_call_state_clean (p : Prog) (h : TopCall p) (t : Tls) (ha : t.anchors = .empty) :
-    (runCall p t).2 = t :=
-  runCall_clean p h.1 h.2 t ha
+programs `p`: an `err`/`serr`/`panic` at any position; leaked guards included) — both thread-locals are
+exactly as the call found them, whatever that was. -/
+theorem toplevel_call_state_clean (p : Prog) (h : TopCall p) (t : Tls) : (runCall p t).2 = t :=
+  runCall_restores p h t
 
 /-- thread-locals after any history of completed top-level calls on a fresh thread: initial -/
 theorem history_leaves_initial_state (hs : List Prog) (h : ∀ q ∈ hs, TopCall q) :
@@ -48,7 +48,7 @@ theorem history_leaves_initial_state (hs : List Prog) (h : ∀ q ∈ hs, TopCall
   induction hs with
   | nil => rfl
   | cons q rest ih =>
-    have hq := toplevel_call_state_clean q (h q (List.mem_cons_self ..)) Tls.init rfl
+    have hq := toplevel_call_state_clean q (h q (List.mem_cons_self ..)) Tls.init
     simp only [runHistory, hq]
     exact ih (fun r hr => h r (List.mem_cons_of_mem _ hr))
 
@@ -59,14 +59,12 @@ theorem toplevel_call_history_independent (hs : List Prog) (h : ∀ q ∈ hs, To
     runCall p (runHistory hs Tls.init) = runCall p Tls.init := by
   rw [history_leaves_initial_state hs h]
 
-/-- Independently of histories: a call that begins with a document scope does not even look at the anchor
-state it is entered with (ANY garbage: stack, stores, in-progress counts). -/
-theorem call_ignores_entry_anchors (cont : Bool) (b k : Prog) (a : Anchors) (f : Option Loc) :
-    runCall (.scope cont b k) ⟨a, f⟩ = runCall (.scope cont b k) ⟨.empty, f⟩ := by
-  have := exec_scope_entry_anchors cont b k none { anchors := .empty, fallback := f } a
-  simp only [runCall]
-  rw [show ({ anchors := a, fallback := f } : St) =
-      { ({ anchors := .empty, fallback := f } : St) with anchors := a } from rfl, this]
+/-- Independently of histories: from ANY entry value of the thread-locals (garbage in the anchor stack,
+stores, in-progress counts, any fallback location) a top-level call returns its fresh-thread result and
+hands the thread-locals back untouched. -/
+theorem call_is_function_of_arguments (p : Prog) (h : TopCall p) (t : Tls) :
+    runCall p t = ((runCall p Tls.init).1, t) :=
+  Prod.ext (runCall_result_indep p h t) (runCall_restores p h t)
 
 /-- C15, `fallback_restored`: every (sub-)deserialization leaves the fallback cell as it found it, on every
 exit path — guards are well nested, including the lazily created guard of the map access (also when the
@@ -84,74 +82,48 @@ theorem fallback_restored_in_map_access (leak : Bool) (body : Prog)
 
 /-! ## Nested calls (a user `Deserialize` impl calls `from_str`) -/
 
-/-- FULL statement (false): a call nested anywhere returns what it returns on a fresh thread. -/
-def nested_call_independent_Full : Prop :=
-  ∀ (p : Prog) (t : Tls), TopCall p → (runCall p t).1 = (runCall p Tls.init).1
+/-- C15, nested clause (FULL): a call nested anywhere — whatever anchor state and fallback location the
+enclosing call has at that moment — returns what it returns on a fresh thread. -/
+theorem nested_call_independent (p : Prog) (h : TopCall p) (t : Tls) :
+    (runCall p t).1 = (runCall p Tls.init).1 :=
+  runCall_result_indep p h t
 
-/-- C15, nested clause, what is true: a call returns the fresh result from ANY entry state (arbitrary
-anchor state of an enclosing call, arbitrary value of the fallback cell) provided every point where it
-reads the fallback cell lies under a guard of its own (`covered`). What is missing for the full statement:
-the entry points never clear the cell, see `nested_call_inherits_outer_fallback`. -/
-theorem nested_call_independent_partial (p : Prog) (h : TopCall p) (hc : covered false p = true) (t : Tls) :
-    (runCall p t).1 = (runCall p Tls.init).1 := by
-  obtain ⟨he, ht⟩ := h
-  have key : ∀ f : Option Loc, (runCall p ⟨t.anchors, f⟩).1 = (runCall p Tls.init).1 := by
-    intro f
-    -- the entry value of the cell does not matter
-    have e := (erase_eq_iff _ _).1
-      (exec_covered p false false ht hc none none { anchors := t.anchors, fallback := none } f (by simp))
-    -- nor does the entry anchor state
-    have a : (exec p none ({ anchors := t.anchors, fallback := none } : St)).1 = (exec p none ({} : St)).1 ∧
-        (exec p none ({ anchors := t.anchors, fallback := none } : St)).2.2.ptrs = (exec p none ({} : St)).2.2.ptrs ∧
-        (exec p none ({ anchors := t.anchors, fallback := none } : St)).2.2.trace = (exec p none ({} : St)).2.2.trace := by
-      cases p with
-      | done => simp [exec]
-      | err l => simp [exec]
-      | scope cont b k =>
-        have := exec_scope_entry_anchors cont b k none ({} : St) t.anchors
-        rw [show ({ anchors := t.anchors, fallback := none } : St) = { ({} : St) with anchors := t.anchors } from rfl, this]
-        exact ⟨rfl, rfl, rfl⟩
-      | probe | ctx | strong | weak | guard | ma | key | serr | panic | nest | recAlias => simp [isEntry] at he
-    simp only [runCall, Tls.init]
-    rw [show ({ anchors := t.anchors, fallback := f } : St) =
-        { ({ anchors := t.anchors, fallback := none } : St) with fallback := f } from rfl]
-    rw [e.2, ← e.1]
-    simp only [a.1, a.2.1, a.2.2]
-  cases t with
-  | mk a f => exact key f
+/-- what user code records about a nested call: its (fresh-thread) result -/
+def nestRecord (inner : Prog) : List Item :=
+  [.nestBegin] ++ (runCall inner Tls.init).1.trace ++
+    [.nestEnd (runCall inner Tls.init).1.out (runCall inner Tls.init).1.ptrs]
+
+/-- C15, nested clause, the enclosing side (FULL): executing a nested call in the middle of a
+deserialization is the same as not executing it, except that user code now holds the nested call's result
+(which is the fresh-thread result). In particular both thread-locals of the enclosing call are untouched. -/
+theorem nested_call_is_noop (inner k : Prog) (s : Slot) (st : St) (h : TopCall inner) :
+    exec (.nest inner k) s st = exec k s { st with trace := st.trace ++ nestRecord inner } := by
+  have e := exec_entry_tls inner h none ({} : St) st.anchors st.fallback
+  have e' : exec inner none { anchors := st.anchors, fallback := st.fallback } =
+      ((exec inner none {}).1, (exec inner none {}).2.1, (exec inner none {}).2.2.withTls st.anchors st.fallback) := e
+  rw [exec]
+  simp only [e', nestRecord, runCall, Tls.init, St.withTls, List.append_assoc]
+
+/-- … hence outcome, pointer sharing and final thread-locals of the enclosing computation are those of the
+computation without the nested call. -/
+theorem nested_call_transparent (inner k : Prog) (s : Slot) (st : St) (h : TopCall inner) :
+    (exec (.nest inner k) s st).1 = (exec k s st).1 ∧
+    (exec (.nest inner k) s st).2.2.ptrs = (exec k s st).2.2.ptrs ∧
+    (exec (.nest inner k) s st).2.2.anchors = (exec k s st).2.2.anchors ∧
+    (exec (.nest inner k) s st).2.2.fallback = (exec k s st).2.2.fallback := by
+  rw [nested_call_is_noop inner k s st h]
+  have a := exec_trace_irrelevant k s st (st.trace ++ nestRecord inner)
+  have b := exec_trace_irrelevant k s st st.trace
+  rw [show ({ st with trace := st.trace } : St) = st from rfl] at b
+  exact ⟨a.1.trans b.1.symm, a.2.1.trans b.2.1.symm, a.2.2.1.trans b.2.2.1.symm, a.2.2.2.trans b.2.2.2.symm⟩
+
+/-! ## Example programs (the witnesses of the former findings) -/
 
 /-- `from_str::<NonZeroU8>("0")`: `deserialize_u8` → `visit_u8(0)` → `Error::invalid_value` (a static
 constructor) with no guard of the call's own -/
 def callNonZero : Prog := .scope false .serr .done
 
 def loc (line col : Nat) : Loc := line * 1048576 + col
-
-/-- FULL statement (false): for the enclosing call a nested call is a no-op. -/
-def nested_call_transparent_Full : Prop :=
-  ∀ (inner k : Prog) (s : Slot) (st : St), TopCall inner →
-    (exec (.nest inner k) s st).1 = (exec k s st).1 ∧ (exec (.nest inner k) s st).2.2.ptrs = (exec k s st).2.2.ptrs
-
-/-- What is true: the nested call gives back the fallback cell as it was and touches nothing local to the
-enclosing call; ALL it does to the enclosing call is `reset()` of the anchor state (stack, stores,
-in-progress counts) — and the record of its own result. -/
-theorem nested_call_only_resets_anchors (cont : Bool) (b k' k : Prog) (s : Slot) (st : St)
-    (h : TopCall (.scope cont b k')) :
-    exec (.nest (.scope cont b k') k) s st =
-      exec k s { st with
-        anchors := .empty
-        trace := st.trace ++ [.nestBegin] ++
-          (exec (.scope cont b k') none { anchors := st.anchors, fallback := st.fallback }).2.2.trace ++
-          [.nestEnd (exec (.scope cont b k') none { anchors := st.anchors, fallback := st.fallback }).1
-            (exec (.scope cont b k') none { anchors := st.anchors, fallback := st.fallback }).2.2.ptrs] } := by
-  have hf := fallback_restored _ h.2 { anchors := st.anchors, fallback := st.fallback }
-  have ha : (exec (.scope cont b k') none { anchors := st.anchors, fallback := st.fallback }).2.2.anchors = .empty := by
-    have := exec_scope_entry_anchors cont b k' none ({ anchors := .empty, fallback := st.fallback } : St) st.anchors
-    rw [show ({ anchors := st.anchors, fallback := st.fallback } : St) =
-        { ({ anchors := .empty, fallback := st.fallback } : St) with anchors := st.anchors } from rfl, this]
-    exact entry_final_anchors _ h.1 _ _ rfl
-  generalize Prog.scope cont b k' = inner at hf ha ⊢
-  rw [exec]
-  simp only [hf, ha]
 
 /-- a struct field `RcAnchor<{v: P}>` on a node with anchor `id` -/
 def rcField (id : Nat) (container vkey : Loc) (k : Prog) : Prog :=
@@ -184,20 +156,23 @@ def recDoc (middle : Prog → Prog) : Prog :=
 
 /-! ## Non-vacuity: the hypotheses hold on the programs the differential run uses -/
 
-example : TopCall withNestedCall ∧ TopCall withoutNestedCall ∧ TopCall (recDoc fun k => k) := by decide
-example : covered false withoutNestedCall = true := by decide
-example : covered false callNonZero = false := by decide
-/-- a failing call, a panicking call, an iterator call with a failing document, a leaked map access -/
+example : TopCall withNestedCall ∧ TopCall withoutNestedCall ∧ TopCall (recDoc fun k => k) ∧ TopCall callNonZero := by decide
+example : tight false withNestedCall = true ∧ tight false (recDoc fun k => .nest callNonZero k) = true := by decide
+/-- a failing call, a panicking call, an iterator call with a failing document, a leaked map access
+(even one that is under no guard: the document scope restores the cell) -/
 example : TopCall (outerDoc fun _ => .err (loc 2 4)) ∧ TopCall (outerDoc fun _ => .panic) ∧
     TopCall (.scope true (.guard 5 (.ma false (.key 6 .serr) .done) .done) (.scope true (.probe .done) .done)) ∧
-    TopCall (.scope false (.guard 5 (.ma true (.key 6 (.probe .done)) .done) (.probe .done)) .done) := by decide
+    TopCall (.scope false (.ma true (.key 6 (.probe .done)) .done) .done) := by decide
 /-- the three kinds of calls in one history, then the witness: same result as on a fresh thread (instance of
 `toplevel_call_history_independent`, evaluated) -/
 example : runCall withoutNestedCall
     (runHistory [outerDoc fun _ => .err (loc 2 4), outerDoc fun _ => .panic, withNestedCall] Tls.init) =
     runCall withoutNestedCall Tls.init := by decide
-/-- a leaked map access NOT under a guard would leave the cell dirty: the hypothesis `tight` is needed -/
-example : (runCall (.scope false (.ma true (.key 6 .done) .done) .done) Tls.init).2.fallback = some 6 := by decide
+/-- a leaked map access under no guard leaves the cell dirty INSIDE the call: `tight` is needed for
+`fallback_restored` … -/
+example : (exec (.ma true (.key 6 .done) .done) none {}).2.2.fallback = some 6 := by decide
+/-- … but not for a whole call: the document scope puts the entry value back -/
+example : (runCall (.scope false (.ma true (.key 6 .done) .done) .done) ⟨.empty, some 9⟩).2.fallback = some 9 := by decide
 
 /-! ## Hash order / hash seed -/
 
@@ -236,7 +211,8 @@ cannot influence results (`seen_membership_only`; `PathMap` is covered by C18
 `find_unique_order_independent`). The oracle of the `calls` area ties this to the code: every call of the
 alphabet gives, after every history of length <= 3 (thorough 4) and after random histories of length
 5..12, the byte-identical canonical result it gives on a fresh thread, and the probes of both
-thread-locals read "clean" after every call.
+thread-locals read "clean" after every call; nested at 4 host positions every call still gives that result,
+and the enclosing call gives the result it gives with a non-parsing `Deserialize` in that place.
 -/
 
 end SaphyrVerif.Tls
